@@ -28,6 +28,7 @@ type SpecEnv struct {
 	fvs     map[string]Val // captured variables of a closure under contract: name -> pointer to its cell
 	foreign bool           // the contract evaluated belongs to a callee, not to frame.fn
 	atcallHeap map[string]string // callback rule: the heap in which atcall(e) is evaluated
+	iterHeap   map[string]string // call-site rule inside a loop: the heap at the start of the current iteration
 }
 
 func (e *SpecEnv) child() *SpecEnv {
@@ -596,6 +597,18 @@ func (c *FnCtx) evalCall(env *SpecEnv, e *Expr) (Val, error) {
 		}
 		sub := env.child()
 		sub.heap = env.entryHeap
+		return c.eval(sub, e.Args[0])
+	case "iterstart":
+		// iterstart(e), in a call-site rule inside a loop: e evaluated in the heap in which the
+		// current iteration of the innermost enclosing loop started (locals keep their current value)
+		if len(e.Args) != 1 {
+			return Val{}, fmt.Errorf("iterstart(e) takes one argument")
+		}
+		if env.iterHeap == nil {
+			return Val{}, fmt.Errorf("iterstart(...) is only available in call-site rules inside a loop")
+		}
+		sub := env.child()
+		sub.heap = env.iterHeap
 		return c.eval(sub, e.Args[0])
 	case "atcall":
 		// atcall(e), in the invariant of a closure used as a callback: the value e had when the
